@@ -2606,6 +2606,15 @@ impl<'de> serde::de::Visitor<'de> for AnnotationsVisitor<'_> {
                     } else if handle > self.store.annotations_len() {
                         // expand the gaps, though this wastes memory if ensures that all references
                         // are valid without explicitly storing public identifiers.
+                        let additional = handle - self.store.annotations_len();
+                        self.store
+                            .annotations
+                            .try_reserve(additional)
+                            .map_err(|_| -> A::Error {
+                                serde::de::Error::custom(
+                                    "unable to allocate memory for the gap implied by a temporary public identifier for annotations",
+                                )
+                            })?;
                         self.store.annotations.resize_with(handle, Default::default);
                     }
                 }
